@@ -78,8 +78,10 @@ def mtu_name(m):
 class RealGrid:
     cache = {}
 
-    def __init__(self, c):
+    def __init__(self, c, tz_override=None):
         self.a, self.tz = anchor(c['z'])
+        if tz_override:
+            self.tz = tz_override
         self.a0 = self.a.tz_localize(self.tz) if self.tz else self.a
         self.mtu = mtu_name(c['mtu'])
         self.g = eao.assets.Timegrid(self.loc(c['sl']), self.loc(c['el']), freq=freq_str(c['f']), main_time_unit=self.mtu, timezone=self.tz)
@@ -96,11 +98,16 @@ def eq_frac(x, ticks, mtu):
     return abs(float(x) - float(want)) <= 1e-9 * max(1.0, abs(float(want)))
 
 
-def compare(rec):
+def compare(rec, tz_override=None):
     """'' or a description of the disagreement between the real Timegrid and the specification"""
     c, op, out = rec['c'], rec['op'], rec['out']
+    if tz_override is None and c['z']['d'] == 0 and op['kind'] in ('assign', 'prices'):
+        # the zone without switch is realised naive AND as a zone west of UTC without daylight saving (interval data, price points)
+        why = compare(rec, tz_override='America/Bogota')
+        if why:
+            return why + ' [zone America/Bogota]'
     try:
-        rg = RealGrid(c)
+        rg = RealGrid(c, tz_override)
     except Exception as e:
         return 'constructor raised %s: %s' % (type(e).__name__, str(e)[:80])
     g = rg.g
